@@ -21,14 +21,19 @@ HUGE  == JInt(<<1400>>)                  \* an integer no float can hold
 FBIG  == JFloat(FALSE, <<1023>>)         \* ~ 9e307
 S_foo == <<102, 111, 111>>
 S_hat_a == <<94, 97>>
+S_pct == <<37, 115>>          \* "%s"
+S_brace == <<123, 48, 125>>   \* "{0}"
 Shapes ==
   { JNull, JTrue, JFalse, N0, N1, NM1, N2, F15, F1, HUGE, FBIG,
     Str(<<>>), Str(S_a), Str(S_hat_a), Str(T_integer), Str(T_any), Str(S_foo),
     Arr(<<>>), Arr(<<EmptyObj>>), Arr(<<EmptyObj, EmptyObj>>), Arr(<<JTrue>>), Arr(<<Str(S_a)>>),
     Arr(<<Str(S_a), Str(S_b)>>), Arr(<<Str(S_a), Str(S_a)>>), Arr(<<N1>>), Arr(<<Str(T_integer), Str(T_string)>>),
-    EmptyObj, Obj1(S_a, EmptyObj), Obj1(S_a, JTrue), Obj1(S_a, Arr(<<Str(S_b)>>)), Obj1(S_a, Str(S_b)), Obj1(S_a, N1), TInt }
+    EmptyObj, Obj1(S_a, EmptyObj), Obj1(S_a, JTrue), Obj1(S_a, Arr(<<Str(S_b)>>)), Obj1(S_a, Str(S_b)), Obj1(S_a, N1), TInt,
+    \* names that are hostile to message formatting: "%s", "{0}"
+    Obj1(S_pct, Arr(<<Str(S_b)>>)), Obj1(S_pct, EmptyObj), Arr(<<Str(S_pct), Str(S_brace)>>), Obj1(S_brace, Arr(<<Str(S_pct)>>)) }
 SmallShapes == { JNull, JTrue, JFalse, N0, N1, F15, HUGE, Str(<<>>), Str(S_a), Arr(<<>>), Arr(<<Str(S_a)>>), Arr(<<EmptyObj>>),
-                 EmptyObj, Obj1(S_a, EmptyObj), Obj1(S_a, Arr(<<Str(S_b)>>)), TInt }
+                 EmptyObj, Obj1(S_a, EmptyObj), Obj1(S_a, Arr(<<Str(S_b)>>)), TInt,
+                 Obj1(S_pct, Arr(<<Str(S_b)>>)), Obj1(S_pct, EmptyObj), Arr(<<Str(S_pct), Str(S_brace)>>) }
 ShapePool == IF ShapeSel = "all" THEN Shapes ELSE SmallShapes
 
 \* every keyword name of the draft's vocabulary, the boolean exclusive* of drafts 3/4, then/else, required of draft 3
@@ -39,7 +44,7 @@ ShapeKws(d) == (Keywords(d) \ {K_d_ref, K_format})
                \cup {K_definitions, K_default, IdKw(d), K_d_schema, K_title}
 
 LitPat(s) == [text |-> s, ast |-> Cat([i \in DOMAIN s |-> Lit(s[i])])]
-SPats == UPats \o <<LitPat(T_integer), LitPat(T_any), LitPat(S_foo), LitPat(S_b)>>
+SPats == UPats \o <<LitPat(T_integer), LitPat(T_any), LitPat(S_foo), LitPat(S_b), LitPat(S_pct)>>
 SEnv(S) == EnvFor(D, S, SPats)
 
 KeysOf(S) == { S.k[i] : i \in DOMAIN S.k }
@@ -98,7 +103,8 @@ Spec == Init /\ [][Next]_vars
 
 ShapeInstances == << JNull, JTrue, JFalse, N0, N1, NM1, F15, HUGE, FBIG, Str(<<>>), Str(S_a), Str(S_ab),
                      Arr(<<>>), Arr(<<N1>>), Arr(<<N1, N1>>), Arr(<<N1, Str(S_a)>>), Arr(<<Arr(<<N1>>)>>),
-                     EmptyObj, Obj1(S_a, N1), Obj2(S_a, N1, S_b, N2), Obj1(S_a, Obj1(S_a, N1)), Obj1(S_b, Str(S_a)) >>
+                     EmptyObj, Obj1(S_a, N1), Obj2(S_a, N1, S_b, N2), Obj1(S_a, Obj1(S_a, N1)), Obj1(S_b, Str(S_a)),
+                     Obj1(S_pct, N1), Obj2(S_brace, N1, S_a, Str(S_pct)) >>
 ASSUME PrintT(ToJson([instances |-> ShapeInstances]))
 
 \* outcome classes the specification allows for one validation: "valid"/"invalid", the documented exceptions the
